@@ -11,6 +11,7 @@
 EXTENDS HGEngine
 
 ProvidedMap(job) == PairsToMap(job.provided)
+WorldOf(job) == [World0 EXCEPT !.lists = PairsToMap(job.lists)]
 
 (***************************************************************************)
 (* C01 -- dependency-order (denotational) evaluation of an acyclic,        *)
@@ -62,7 +63,7 @@ HasEarlyStart(pr, prov, i) ==
 C01(job) ==
   LET pr == job.prog
       prov == ProvidedMap(job)
-      r == RunProg(pr, "", job.provided, World0, job.mode)
+      r == RunProg(pr, "", job.provided, WorldOf(job), job.mode)
       den == Denote(pr, prov)
   IN [ completes |-> r.status = "completed",
        values    |-> FilterOut(pr, r.vals, <<"**">>) = den,
@@ -96,7 +97,7 @@ AllFrames(pr, prefix) ==
   UNION {AllFrames(pr.nodes[i].sub, Path(prefix, pr.nodes[i].name)) : i \in GraphIdx(pr)}
 FrameProg(frames, path) == (CHOOSE f \in frames : f.path = path).prog
 
-RunOf(job) == RunProg(job.prog, "", job.provided, World0, job.mode)
+RunOf(job) == RunProg(job.prog, "", job.provided, WorldOf(job), job.mode)
 Positions(calls, frame, node) == {k \in 1..Len(calls) : calls[k].frame = frame /\ calls[k].node = node}
 MaxOf(S) == CHOOSE x \in S : \A y \in S : y <= x
 
@@ -245,7 +246,7 @@ RefBody(pr, rs, body, i) == IF i > Len(body) THEN rs ELSE RefBody(pr, RefExec(pr
 RECURSIVE RefLoop(_, _, _, _, _)
 RefLoop(pr, meta, rs, k, fuel) ==      \* k = number of gate evaluations so far
   LET g == NodeByName(pr, meta.gate)
-      d == Decide(g, RawDecision(g, k + 1))
+      d == Decide(g, RawDecision(g, k + 1, <<>>))
       rs1 == [rs EXCEPT !.cnt = Put(rs.cnt, g.name, k + 1)]
   IN IF fuel = 0 THEN [rs EXCEPT !.cut = TRUE]
      ELSE IF DecSelects(g, d, meta.body[1]) THEN RefLoop(pr, meta, RefBody(pr, rs1, meta.body, 1), k + 1, fuel - 1)
@@ -304,7 +305,7 @@ L1(prop, job) == CASE prop = "C01" -> C01(job)
 \* sibling of the failing step included (the async runner's view)
 C11Aux(job) ==
   LET r == RunOf(job)
-      ra == RunProg(job.prog, "", job.provided, World0, "async")
+      ra == RunProg(job.prog, "", job.provided, WorldOf(job), "async")
   IN [ lower |-> FilterOut(job.prog, r.pre, job.select),
        upper |-> FilterOut(job.prog, ra.vals, job.select),
        upper_err |-> ra.err ]
